@@ -141,7 +141,7 @@ def parseFiles (s : String) : Option (List Nat) :=
 def initWorld (cs tmpsz ndirs : Nat) (ws : List WFault) (ms : List Bool) (files : List Nat) : World :=
   let fl : List File := files.zipIdx.map fun (sz, fid) => { content := pat fid sz, nlink := 1 }
   { cs := chunkSize cs, defTempSize := if tmpsz = 0 then 1048576 else tmpsz, ndirs := ndirs,
-    files := fun i => fl.getD i {}, nfiles := fl.length, wsched := ws, msched := ms }
+    files := fun i => fl.getD i {}, nfiles := fl.length, nsrc := fl.length, wsched := ws, msched := ms }
 
 def runOps (st : St) (ops : List String) : String :=
   let (st, out) := ops.foldl (fun (acc : St × String) tok =>
